@@ -1744,9 +1744,6 @@ class FloodFillSubsetState(MaskSubsetState):
         ``start_value`` is the value of the data at ``start_coords``.
     """
 
-    # TODO: we need to recompute the mask if the numerical values of the
-    # data changes.
-
     def __init__(self, data, att, start_coords, threshold):
 
         if len(start_coords) != data.ndim:
@@ -1809,9 +1806,11 @@ class FloodFillSubsetState(MaskSubsetState):
         self._threshold = value
 
     def _compute_mask(self):
-        mask = floodfill(self.data[self.att],
-                         self.start_coords, self.threshold)
-        self._mask_cache = (self._hash, mask)
+        # We keep a reference to the array of values used, so that we can tell
+        # if the values of the attribute have since been replaced
+        values = self.data[self.att]
+        mask = floodfill(values, self.start_coords, self.threshold)
+        self._mask_cache = (self._hash, mask, values)
 
     @property
     def _hash(self):
@@ -1819,7 +1818,7 @@ class FloodFillSubsetState(MaskSubsetState):
 
     @property
     def mask(self):
-        if self._mask_cache[0] != self._hash:
+        if self._mask_cache[0] != self._hash or self._mask_cache[2] is not self.data[self.att]:
             self._compute_mask()
         return self._mask_cache[1]
 
